@@ -37,6 +37,7 @@ from props import _jk_common as jk
 
 PATCH_D = 0.03125                        # objects 0 / 1 of a patch sit at centre +- PATCH_D, 2 / 3 at +- PATCH_D / 2
 GAPS = [0.03125, 0.0625, 0.09375, 0.125, 32.0, 32.0, 32.0]
+GAPS_WIDE = [0.09375, 0.125, 0.125, 32.0, 32.0]     # every object is nearest to the centre of its own patch (patch_centers mode)
 REF_MODES = ["onebin", "diag", "deadbin", "random", "random", "full"]
 RAND_MODES = ["full", "full", "full", "complement", "random"]
 # pair-count containers of a CorrFunc: name -> (sample 1, read with binning, sample 2, read with binning, auto)
@@ -100,7 +101,7 @@ def offsets(n_pairs, n_centre):
     return off + [0.0] * n_centre
 
 
-def gen_sample(rng, closed, edges, cells, hasw, has_z, dense=False):
+def gen_sample(rng, closed, edges, cells, hasw, has_z, dense=False, wmode="pos"):
     """per patch one or two pairs of objects placed symmetrically about the patch centre with equal weights and
     0-3 objects on the centre (the weighted patch centres of all samples of a measurement coincide, the
     implementation's patch-consistency check accepts them); a sample with redshifts puts one object into each
@@ -138,15 +139,142 @@ def gen_sample(rng, closed, edges, cells, hasw, has_z, dense=False):
             else:
                 ws.append(rng.randrange(1, 33) / 8.0)
         patches.append([[z, w, o] for z, w, o in zip(zs, ws, off)])
-    return dict(has_z=has_z, hasw=hasw, patches=patches)
+    sample = dict(has_z=has_z, hasw=hasw, patches=patches)
+    if hasw and wmode != "pos":
+        reweigh(rng, closed, edges, sample, wmode)
+    return sample
 
 
-def random_spec(rng):
+# ----------------------------------------------------------------------------- weights that are not positive
+# "The two samples' total weights" are sums of whatever the weight column holds: objects masked with weight 0 instead of
+# being removed, weights of both signs (e.g. a subtracted background).  A (patch, bin) cell - a whole patch for a sample read
+# without the binning - may hold objects and have total weight exactly 0; a bin or a whole sample may.
+WMODES = ["zeros", "mask-cells", "mask-cells", "signed", "cancel-cells", "cancel-cells", "one-patch", "dead-bin-weights",
+          "cancel-sample"]
+
+
+def wval(rng):
+    return rng.randrange(1, 33) / 8.0
+
+
+def patch_cells(closed, edges, objs, has_z):
+    """indices of the objects of one patch by cell: the bin they fall into (python-side membership: shapes the generated
+    input, never a verdict), the whole patch for a sample without redshifts"""
+    if not has_z:
+        return {0: list(range(len(objs)))}
+    out = {}
+    for j, o in enumerate(objs):
+        for b in range(len(edges) - 1):
+            if gen_member(closed, edges, b, o[0]):
+                out.setdefault(b, []).append(j)
+    return out
+
+
+def weight_groups(objs):
+    """objects that must carry equal weights for the weighted patch centre to stay on the nominal centre: the two
+    members of a symmetric pair; every object on the centre by itself"""
+    n_off = sum(1 for o in objs if o[2] != 0.0)
+    return [[j, j + 1] for j in range(0, n_off, 2)] + [[j] for j in range(n_off, len(objs))]
+
+
+def cancel(rng, objs, idx):
+    """weights of both signs on the objects idx that sum to exactly 0 (all dyadic: the float sums are exact)"""
+    if len(idx) == 1:
+        objs[idx[0]][1] = 0.0
+        return
+    tot = 0.0
+    for j in idx[:-1]:
+        objs[j][1] = wval(rng) * rng.choice([1.0, 1.0, -1.0])
+        tot += objs[j][1]
+    objs[idx[-1]][1] = -tot
+
+
+def proper_subset(rng, n):
+    """a non-empty set of indices below n that leaves at least one out when n >= 2"""
+    if n <= 1:
+        return list(range(n))
+    return sorted(rng.sample(range(n), rng.randrange(1, n)))
+
+
+def reweigh(rng, closed, edges, sample, wmode):
+    patches, has_z = sample["patches"], sample["has_z"]
+    P, nb = len(patches), len(edges) - 1
+    sample["wmode"] = wmode
+    if wmode in ("zeros", "signed"):       # per weight group: the patch centres stay where they are
+        for objs in patches:
+            for g in weight_groups(objs):
+                if wmode == "zeros":
+                    w = 0.0 if rng.random() < 0.45 else wval(rng)
+                else:
+                    w = wval(rng) * (-1.0 if rng.random() < 0.4 else 1.0)
+                for j in g:
+                    objs[j][1] = w
+        return
+    if wmode == "one-patch":               # the only non-zero weights of the catalog sit in one patch
+        keep = rng.randrange(P)
+        for p, objs in enumerate(patches):
+            if p != keep:
+                for o in objs:
+                    o[1] = 0.0
+        return
+    if wmode == "dead-bin-weights" and has_z:      # some bins: every object of every patch masked
+        for b in proper_subset(rng, nb):
+            for objs in patches:
+                for j in patch_cells(closed, edges, objs, True).get(b, []):
+                    objs[j][1] = 0.0
+        return
+    if wmode == "cancel-sample":           # the whole sample (per bin, if read with the binning) weighs nothing
+        if rng.random() < 0.5:
+            for objs in patches:
+                for o in objs:
+                    o[1] *= rng.choice([1.0, -1.0])
+        for b in (range(nb) if has_z else [0]):
+            members = [(p, j) for p, objs in enumerate(patches) for j in patch_cells(closed, edges, objs, has_z).get(b, [])]
+            if members:
+                tot = sum(patches[p][j][1] for p, j in members)
+                p, j = members[-1]
+                patches[p][j][1] -= tot
+        return
+    # mask-cells / cancel-cells (and dead-bin-weights of a sample without redshifts): some populated cells weigh nothing
+    which = proper_subset(rng, P) if not has_z else [p for p in range(P) if rng.random() < 0.65] or [rng.randrange(P)]
+    for p in which:
+        objs = patches[p]
+        cells = patch_cells(closed, edges, objs, has_z)
+        if not cells:
+            continue
+        idx = cells[rng.choice(sorted(cells))]
+        if wmode == "cancel-cells":
+            cancel(rng, objs, idx)
+        else:
+            for j in idx:
+                objs[j][1] = 0.0
+            if rng.random() < 0.5:         # with the symmetric partners: the weighted patch centre stays
+                for g in weight_groups(objs):
+                    if any(j in idx for j in g):
+                        for j in g:
+                            objs[j][1] = 0.0
+
+
+def needs_centers(sample):
+    """True when the weighted mean position of some patch is undefined (total weight 0: Catalog.from_dataframe with
+    patch_name stops in np.average) or off the nominal centre (symmetric partners with different weights); such a catalog
+    is created with patch_centers = the nominal centres, the documented way of sharing patch centres between catalogs"""
+    if not sample["hasw"]:
+        return False
+    for objs in sample["patches"]:
+        if sum(Fraction(o[1]) for o in objs) == 0:
+            return True
+        if any(len({objs[j][1] for j in g}) > 1 for g in weight_groups(objs)):
+            return True
+    return False
+
+
+def random_spec(rng, weights=False):
     edges = gen_edges(rng)
     nb = len(edges) - 1
     closed = rng.choice(["left", "right"])
     P = rng.choice([2, 3, 3, 3, 4])
-    gaps = [rng.choice(GAPS) for _ in range(P - 1)]
+    gaps = [rng.choice(GAPS_WIDE if weights else GAPS) for _ in range(P - 1)]
     if rng.random() < 0.3:
         gaps = [32.0] * (P - 1)           # a survey of isolated fields
     mode_ref = rng.choice(REF_MODES)
@@ -160,13 +288,22 @@ def random_spec(rng):
     unk_auto = None
     if which in ("unk_rand", "both") and rng.random() < 0.25:
         unk_auto = dict(count_rr=rng.random() < 0.5)
-    samples = dict(ref=gen_sample(rng, closed, edges, cells_ref, hw(), True))
+    names = ["ref", "unk"] + (["ref_rand"] if which in ("ref_rand", "both") else []) + (["unk_rand"] if which in ("unk_rand", "both") else [])
+    wm = {n: "pos" for n in names}
+    hasw = {n: hw() for n in names}
+    if weights:                          # at least one sample (mostly a data sample) with weights that are not all positive
+        for n in set([rng.choice(["ref", "ref", "unk", "unk"] + names)] + [n for n in names if rng.random() < 0.25]):
+            wm[n], hasw[n] = rng.choice(WMODES), True
+    samples = dict(ref=gen_sample(rng, closed, edges, cells_ref, hasw["ref"], True, dense=weights and rng.random() < 0.5, wmode=wm["ref"]))
     unk_cells = gen_cells(rng, rng.choice(["random", "full", "onebin"]), nb, P)
-    samples["unk"] = gen_sample(rng, closed, edges, unk_cells, hw(), unk_auto is not None, dense=rng.random() < 0.5)
+    samples["unk"] = gen_sample(rng, closed, edges, unk_cells, hasw["unk"], unk_auto is not None, dense=rng.random() < 0.5, wmode=wm["unk"])
     if which in ("ref_rand", "both"):
-        samples["ref_rand"] = gen_sample(rng, closed, edges, cells_rand, hw(), True, dense=rng.random() < 0.6)
+        samples["ref_rand"] = gen_sample(rng, closed, edges, cells_rand, hasw["ref_rand"], True, dense=rng.random() < 0.6, wmode=wm["ref_rand"])
     if which in ("unk_rand", "both"):
-        samples["unk_rand"] = gen_sample(rng, closed, edges, [list(range(nb))] * P, hw(), unk_auto is not None, dense=rng.random() < 0.6)
+        samples["unk_rand"] = gen_sample(rng, closed, edges, [list(range(nb))] * P, hasw["unk_rand"], unk_auto is not None,
+                                         dense=rng.random() < 0.6, wmode=wm["unk_rand"])
+    for smp in samples.values():         # patch_centers where patch_name cannot place the centres, and sometimes where it can
+        smp["centers"] = needs_centers(smp) or (weights and rng.random() < 0.2)
     ref_auto = dict(count_rr=rng.random() < 0.5) if ("ref_rand" in samples and rng.random() < 0.5) else None
     subsets = []
     if which == "both":                  # CorrFuncs made of some of the measured pair counts
@@ -178,7 +315,10 @@ def random_spec(rng):
         scales = dict(rmin=[rmin, rmin], rmax=[rmax / 2.0, rmax])
     else:
         scales = dict(rmin=[rmin], rmax=[rmax])
-    return dict(kind="meas", tag="meas:%s:%s+%s" % (which, mode_ref, mode_rand), closed=closed, edges=edges, gaps=gaps,
+    tag = "meas:%s:%s+%s" % (which, mode_ref, mode_rand)
+    if weights:
+        tag = "meas:weights:%s:%s" % (which, ",".join("%s=%s" % (n, wm[n]) for n in names if wm[n] != "pos"))
+    return dict(kind="meas", tag=tag, closed=closed, edges=edges, gaps=gaps,
                 scales=scales, samples=samples, ref_auto=ref_auto, unk_auto=unk_auto, subsets=subsets)
 
 
@@ -223,21 +363,81 @@ def probe_specs():
     return out
 
 
+def weight_probe_specs():
+    """deterministic: three patches, two bins (0.25, 0.5, 0.75), objects on bin midpoints.
+    masked: the reference objects of patch 1 in the first bin carry weight 0 (masked, not removed), those of patch 2 in the
+      second bin weights 1, 1, -2; the unknown sample has one negative weight; every patch keeps a non-zero total and its
+      weighted centre (catalogs created with patch_name);
+    unk-patch: the unknown objects of patch 1 all carry weight 0 and the unknown randoms of patch 2 cancel; the reference
+      randoms carry weight 0 in one cell (catalogs created with patch_centers);
+    one-patch: the only non-zero reference weights sit in patch 0; the second bin of the reference randoms weighs nothing."""
+    out = []
+    edges = [0.25, 0.5, 0.75]
+    D, H = PATCH_D, PATCH_D / 2
+    a, b = 0.375, 0.625
+    ref = [[[a, 1.0, D], [a, 1.0, -D], [b, 2.0, 0.0]],
+           [[a, 0.0, D], [a, 0.0, -D], [b, 1.5, 0.0]],
+           [[b, 1.0, D], [b, 1.0, -D], [b, -2.0, 0.0], [a, 0.5, 0.0]]]
+    ref_one = [[[a, 1.0, D], [b, 1.0, -D], [a, 0.5, H], [b, 0.5, -H], [b, 2.0, 0.0]],
+               [[a, 0.0, D], [a, 0.0, -D], [b, 0.0, 0.0]],
+               [[b, 0.0, D], [b, 0.0, -D], [a, 0.0, 0.0], [a, 0.0, 0.0]]]
+    unk = [[[0.0, 1.0, D], [0.0, 1.0, -D]],
+           [[0.0, 2.0, D], [0.0, 2.0, -D], [0.0, -1.0, 0.0]],
+           [[0.0, 0.5, D], [0.0, 0.5, -D], [0.0, 3.0, 0.0]]]
+    unk_zero = [[[0.0, 1.0, D], [0.0, 1.0, -D]],
+                [[0.0, 0.0, D], [0.0, 0.0, -D], [0.0, 0.0, 0.0]],
+                [[0.0, 0.5, D], [0.0, 0.5, -D], [0.0, 3.0, 0.0]]]
+    rand = [[[a, 1.0, D], [b, 1.0, -D], [a, 1.0, H], [b, 1.0, -H], [a, 1.0, 0.0], [b, 1.0, 0.0]] for _ in range(3)]
+    rand_cell = [[[a, 1.0, D], [b, 1.0, -D], [a, 1.0, H], [b, 1.0, -H], [a, 1.0, 0.0], [b, 1.0, 0.0]],
+                 [[a, 0.0, D], [b, 2.0, -D], [a, 0.0, H], [b, 0.5, -H], [a, 0.0, 0.0], [b, 1.0, 0.0]],
+                 [[a, 1.0, D], [b, 1.0, -D], [a, 0.5, H], [b, 0.5, -H], [a, 2.0, 0.0], [b, 2.0, 0.0]]]
+    rand_dead = [[[a, 1.0, D], [b, 0.0, -D], [a, 1.0, H], [b, 0.0, -H], [a, 0.5, 0.0], [b, 0.0, 0.0]] for _ in range(3)]
+    urand = [[[0.0, 1.0, D], [0.0, 1.0, -D], [0.0, 1.0, H], [0.0, 1.0, -H], [0.0, 1.0, 0.0]] for _ in range(3)]
+    urand_cancel = [[[0.0, 1.0, D], [0.0, 1.0, -D], [0.0, 1.0, H], [0.0, 1.0, -H], [0.0, 1.0, 0.0]],
+                    [[0.0, 2.0, D], [0.0, 2.0, -D], [0.0, 0.5, 0.0]],
+                    [[0.0, 1.5, D], [0.0, -1.5, -D], [0.0, 1.0, H], [0.0, 0.25, -H], [0.0, -1.25, 0.0]]]
+
+    def sm(patches, has_z=True, hasw=True):
+        smp = dict(has_z=has_z, hasw=hasw, patches=[[list(o) for o in objs] for objs in patches])
+        smp["centers"] = needs_centers(smp)
+        return smp
+    for closed, (gname, gaps) in (("right", ("isolated", [32.0, 32.0])), ("left", ("linked", [0.09375, 0.125]))):
+        base = dict(kind="meas", closed=closed, edges=edges, gaps=gaps, scales=dict(rmin=[100.0], rmax=[2000.0]),
+                    ref_auto=None, unk_auto=None, subsets=[])
+        name = "%s:%s" % (gname, closed)
+        out.append(dict(base, tag="meas:probe:weights:masked:ref_rand:" + name,
+                        samples=dict(ref=sm(ref), unk=sm(unk, False), ref_rand=sm(rand, hasw=False))))
+        out.append(dict(base, tag="meas:probe:weights:masked:both+auto:" + name, ref_auto=dict(count_rr=True), subsets=[["dr"], ["dr", "rr"]],
+                        samples=dict(ref=sm(ref), unk=sm(unk, False), ref_rand=sm(rand_cell), unk_rand=sm(urand, False, False))))
+        out.append(dict(base, tag="meas:probe:weights:unk-patch:both:" + name, subsets=[["rd"], ["dr", "rd"]],
+                        samples=dict(ref=sm(ref), unk=sm(unk_zero, False), ref_rand=sm(rand_cell), unk_rand=sm(urand_cancel, False))))
+        out.append(dict(base, tag="meas:probe:weights:one-patch:both+auto:" + name, ref_auto=dict(count_rr=closed == "left"),
+                        samples=dict(ref=sm(ref_one), unk=sm(unk, False), ref_rand=sm(rand_dead), unk_rand=sm(urand, False, False))))
+    return out
+
+
 def specs(ctx):
     rng = ctx.rng
-    out = probe_specs()
+    out = probe_specs() + weight_probe_specs()
     for _ in range(ctx.n(45, 450)):
         out.append(random_spec(rng))
+    for _ in range(ctx.n(22, 220)):      # weights that are zero, of both signs, cancelling in a cell / a bin / a sample
+        out.append(random_spec(rng, weights=True))
     return out
 
 
 # ----------------------------------------------------------------------------- running the implementation
+def centres(spec):
+    out = [20.0]
+    for g in spec["gaps"]:
+        out.append(out[-1] + g)
+    return out
+
+
 def frame(spec, sample):
     ra, dec, z, w, pid = [], [], [], [], []
-    centre = 20.0
     for p, objs in enumerate(sample["patches"]):
-        if p:
-            centre += spec["gaps"][p - 1]
+        centre = centres(spec)[p]
         for zz, ww, off in objs:
             ra.append(centre + off)
             dec.append(0.0)
@@ -263,13 +463,19 @@ def observe(ctx, spec, idx):
         for name, sample in sorted(spec["samples"].items()):
             d = impl.fresh_dir(ctx, "mcat_%d_%s" % (idx, name))
             dirs.append(d)
-            kw = dict(ra_name="ra", dec_name="dec", patch_name="pid", max_workers=1)
+            kw = dict(ra_name="ra", dec_name="dec", max_workers=1)
+            if sample.get("centers"):    # the nominal patch centres, shared by all catalogs; objects go to the nearest one
+                kw["patch_centers"] = impl.AngularCoordinates(np.deg2rad([[c, 0.0] for c in centres(spec)]))
+            else:
+                kw["patch_name"] = "pid"
             if sample["has_z"]:
                 kw["redshift_name"] = "z"
             if sample["hasw"]:
                 kw["weight_name"] = "w"
             cats[name] = impl.Catalog.from_dataframe(d, impl.make_df(frame(spec, sample)), **kw)
             assert sorted(int(k) for k in cats[name].keys()) == list(range(len(sample["patches"]))), "patch ids"
+            assert [int(cats[name][p].meta.num_records) for p in range(len(sample["patches"]))] == \
+                [len(objs) for objs in sample["patches"]], "records per patch"
         conf = impl.Configuration.create(rmin=spec["scales"]["rmin"], rmax=spec["scales"]["rmax"], edges=spec["edges"],
                                          closed=spec["closed"], max_workers=1)
         old = np.seterr(invalid="ignore", divide="ignore")
@@ -419,18 +625,33 @@ def weights_text(spec, role, conts):
 def labels(ctx, spec, role, conts):
     nb = len(spec["edges"]) - 1
     P = len(spec["samples"]["ref"]["patches"])
-    partner_empty = dead = False
+    partner_empty = dead = zero_cell = zero_bin = zero_sample = negative = zero_obj = centers = False
     for k in conts:
         s1, b1, s2, b2, _ = CONT[role][k]
         n1, n2 = cell_counts(spec, spec["samples"][s1], b1), cell_counts(spec, spec["samples"][s2], b2)
         partner_empty = partner_empty or any((n1[b][p] == 0) != (n2[b][p] == 0) for b in range(nb) for p in range(P))
         dead = dead or any(all(v == 0 for v in row) for row in n1 + n2)
+        for (sn, sb), n in (((s1, b1), n1), ((s2, b2), n2)):
+            smp = spec["samples"][sn]
+            w = cell_sums(spec, smp, sb)
+            live = [b for b in range(nb) if sum(w[b]) != 0]
+            # a populated cell that weighs nothing in a bin whose total weight is not zero: the term is defined
+            zero_cell = zero_cell or any(n[b][p] > 0 and w[b][p] == 0 for b in live for p in range(P))
+            zero_bin = zero_bin or any(sum(n[b]) > 0 and sum(w[b]) == 0 for b in range(nb))
+            zero_sample = zero_sample or not live
+            centers = centers or bool(smp.get("centers"))
+            if smp["hasw"]:
+                negative = negative or any(o[1] < 0 for objs in smp["patches"] for o in objs)
+                zero_obj = zero_obj or any(o[1] == 0 for objs in smp["patches"] for o in objs)
     for name, flag in (("cell-empty-in-one-sample-populated-in-partner", partner_empty), ("bin-empty-in-every-patch", dead),
+                       ("populated-cell-of-total-weight-zero-in-a-bin-of-non-zero-weight", zero_cell),
+                       ("populated-bin-of-total-weight-zero", zero_bin), ("sample-of-total-weight-zero-in-every-bin", zero_sample),
+                       ("negative-weights", negative), ("objects-of-weight-zero", zero_obj), ("catalog-created-with-patch_centers", centers),
                        ("isolated-fields", all(g >= 1.0 for g in spec["gaps"])), ("linked-neighbours", any(g < 1.0 for g in spec["gaps"])),
                        ("two-scales", len(spec["scales"]["rmin"]) > 1)):
         if flag:
             ctx.bump("meas:%s" % name)
-    return partner_empty
+    return partner_empty or zero_cell
 
 
 # ----------------------------------------------------------------------------- handlers
